@@ -27,9 +27,13 @@
 //     affine-jump pairs where exactly ONE side is the identity are counted (`RJUMP`): they must be explained by the
 //     exact-arithmetic theorems M33_arms_disagree_iff / M44_affine_vs_gj (spec verdicts decided on both sides) and can
 //     not occur for cond <= 1/eps (`residue:affine-jump-identity:<fn>`).
+//     CEILINGS on the paths with recorded findings (cofactor arms, M44 jump): residue:accuracy2:<arm> / residue:affine-jump2:<fn>
+//     (err <= C2*cond^2*eps*|X| where cond^2*eps <= 1/16) and residue:accuracy-wellcond:<arm> (8*cond*eps for cond <= 100); pseudo
+//     paths `accuracy2:`, `accuracy-wellcond:`, `affine-jump2:` in the RPATH lines.  Inputs outside the dynamic range 1/eps^2 with
+//     cond < 1/eps^2: `ROUTSIDE` lines / counters (finite unless the exact inverse has an entry above max()/4), not failures.
 //     Lines: `RESIDUE-FAIL <key> ...` (key = residue:accuracy:<path> | residue:affine-jump:<fn> | residue:nonfinite:<path> |
-//     residue:lattice:<path> | residue:guard:<path> | residue:affine-jump-identity:<fn> | residue:residual:<path>; at most 4
-//     per key and type), `RPATH <path> <ty> n= judged= worst= ...`, `RGUARD ...`, `RJUMP ...`, one `RESIDUE ...` summary.
+//     residue:lattice:<path> | residue:guard:<path> | residue:affine-jump-identity:<fn> | residue:residual:<path> | the ceiling
+//     keys above; at most 4 per key and type), `RPATH <path> <ty> n= judged= worst= ...`, `RGUARD ...`, `RJUMP ...`, one `RESIDUE ...` summary.
 //
 //   c06_inv exh33 <stride> <offset>   EXHAUSTIVE small-integer 3x3 families for the three-way tie real code / hand model /
 //     specification: family x = all 4^9 matrices over {-1,0,1,2} (those with hash(index) % stride == offset), family y = first
@@ -265,6 +269,14 @@ static std::map<std::string, PathStat> pstat;
 static std::map<std::string, long> classN;
 static long rEvals = 0, rFail = 0, detGe1 = 0, detLt1 = 0, guardIdentity = 0, finiteChecked = 0, latticeChecked = 0, rangeExcluded = 0;
 static double CBOUND = 8;
+// The two cofactor arms and the M44 affine/general jump do not meet c*cond*eps (recorded known findings, whose description is
+// "~cond^2*eps").  So that the path-wide known-finding keys cannot absorb a NEW numerical defect, these paths are additionally
+// held to (a) a CEILING  err <= C2*cond^2*eps*|X|  (keys residue:accuracy2:<arm>, residue:affine-jump2:<fn>; calibrated: clean-tree
+// maxima over seeds 1-5 at the thorough size are 0.43 (accuracy2, bound C2 = 1) and 0.25 (jump2, bound 2*C2), judged where
+// cond^2*eps <= 1/16) and (b) the property's own 8*cond*eps bound wherever they DO conform:
+// cond <= WELLCOND (key residue:accuracy-wellcond:<arm>; clean-tree maximum 0.79).  None of these keys is in KNOWN_FINDINGS.
+static double C2 = 1, WELLCOND = 100;
+static long outsideRangeChecked = 0, outsideRangeNonfinite = 0;
 
 template <class T, int N> static std::string showM (const typename MatT<T, N>::type& m)
 {
@@ -316,7 +328,7 @@ static void failLine (PathStat& st, const std::string& key, const std::string& t
 // G_DIV / G_ID when every value in those intervals decides the same way, G_BAND otherwise.
 enum { G_ID = -1, G_BAND = 0, G_DIV = 1 };
 struct GuardVerdict { bool applies = false; int v = G_BAND; int unique = -1; int K = 0; double q = 0; };
-struct GuardStat { long n = 0, mustDivide = 0, mustIdentity = 0, band = 0, fails = 0, ties = 0, printed = 0; unsigned posMask = 0; int K = 0; };
+struct GuardStat { long n = 0, mustDivide = 0, mustIdentity = 0, band = 0, fails = 0, ties = 0, printed = 0, edgeN = 0, edgeBand = 0; unsigned posMask = 0; int K = 0; };
 static std::map<std::string, GuardStat> gstat;
 struct JumpStat { long pairs = 0, oneSide = 0, arms = 0, moved = 0, band = 0, unexplained = 0, withinCond = 0, printed = 0; };
 static std::map<std::string, JumpStat> jstat;
@@ -416,6 +428,8 @@ template <class T, int N> static int guardCheck (const std::string& cls, const s
         }
     }
     else ++gs.band;
+    // the guard-edge classes built to be DECIDED (all but `guard-edge-ulps`): how many of them end in the band
+    if (cls.compare (0, 10, "guard-edge") == 0 && cls != "guard-edge-ulps") { ++gs.edgeN; if (g.v == G_BAND) ++gs.edgeBand; }
     return g.v;
 }
 static bool isGJPath (const std::string& path) { return path.find ("gjInverse") != std::string::npos || path.find ("nonaffine") != std::string::npos; }
@@ -454,6 +468,22 @@ template <class T, int N> static void judge (const std::string& cls, const std::
             return;
         }
     }
+    if (cond < 1 / (eps * eps) && !bounded)
+    {
+        // OUTSIDE the property's quantifier (dynamic range of the entries above 1/eps^2), but kept visible with a weaker, still
+        // checkable claim: the result is finite unless the exact inverse itself is not representable (an entry above max()/4)
+        ++outsideRangeChecked;
+        Q xm = 0;
+        for (int i = 0; i < N; ++i) for (int j = 0; j < N; ++j) xm = std::max (xm, qabs (x[i][j]));
+        if (!fin && xm < (Q) std::numeric_limits<T>::max () / 4)
+        {
+            // not a failure of the property: counted, the first few printed, and the SHARE is bounded by the check
+            ++outsideRangeNonfinite;
+            snprintf (buf, 400, "%s cond=%.3g max|X|=%.3g class=%s in=", tyName<T> (), (double) cond, (double) xm, cls.c_str ());
+            if (outsideRangeNonfinite <= 6) printf ("ROUTSIDE %s %s%s dec=%s\n", path.c_str (), buf, showM<T, N> (m).c_str (), showDec<T, N> (m).c_str ());
+            return;
+        }
+    }
     if (cond > 1 / eps || !fin) return;       // accuracy is claimed up to cond = 1/eps
     if (isIdentity<T, N> (got) && !inputIsIdentity<T, N> (m))
     {
@@ -486,6 +516,33 @@ template <class T, int N> static void judge (const std::string& cls, const std::
     for (int i = 0; i < N; ++i) for (int j = 0; j < N; ++j) err = std::max (err, qabs ((Q) got[i][j] - x[i][j]));
     double ratio = (double) (err / (cond * eps * nx));
     if (ratio > st.worst) { st.worst = ratio; st.worstCond = (double) cond; }
+    if (path == "M33.inverse:cofactor-general-arm" || path == "M44.inverse:cofactor-affine-arm")
+    {
+        PathStat& s2 = pstat["accuracy2:" + path + " " + tyName<T> ()];
+        ++s2.n;
+        // a ceiling in units of cond^2*eps exists only while cond^2*eps is small: the computed determinant is det*(1 + O(cond^2*eps))
+        // and may cancel completely beyond that; there (counted: n - judged) only the recorded finding speaks
+        const bool inRange = cond * cond * eps * 16 <= 1;
+        if (inRange) ++s2.judged;
+        double r2 = inRange ? (double) (err / (cond * cond * eps * nx)) : 0;
+        if (r2 > s2.worst) { s2.worst = r2; s2.worstCond = (double) cond; }
+        if (r2 > C2)
+        {
+            snprintf (buf, 400, "%s err/(cond^2*eps*|X|)=%.4g bound=%g cond=%.3g class=%s in=", tyName<T> (), r2, C2, (double) cond, cls.c_str ());
+            failLine (s2, "residue:accuracy2:" + path, buf + showM<T, N> (m) + " dec=" + showDec<T, N> (m));
+        }
+        if (cond <= WELLCOND)
+        {
+            PathStat& sw = pstat["accuracy-wellcond:" + path + " " + tyName<T> ()];
+            ++sw.n; ++sw.judged;
+            if (ratio > sw.worst) { sw.worst = ratio; sw.worstCond = (double) cond; }
+            if (ratio > CBOUND)
+            {
+                snprintf (buf, 400, "%s err/(cond*eps*|X|)=%.4g bound=%g cond=%.3g<=%g class=%s in=", tyName<T> (), ratio, CBOUND, (double) cond, WELLCOND, cls.c_str ());
+                failLine (sw, "residue:accuracy-wellcond:" + path, buf + showM<T, N> (m) + " dec=" + showDec<T, N> (m));
+            }
+        }
+    }
     if (ratio > CBOUND)
     {
         snprintf (buf, 400, "%s err/(cond*eps*|X|)=%.4g bound=%g cond=%.3g class=%s in=", tyName<T> (), ratio, CBOUND, (double) cond, cls.c_str ());
@@ -584,6 +641,20 @@ template <class T, int N> static void jump (const std::string& cls, const typena
     if (cond > 1 / e) return;
     for (int i = 0; i < N; ++i) for (int j = 0; j < N; ++j) jmp = std::max (jmp, qabs ((Q) x0[i][j] - (Q) x1[i][j]));
     double ratio = (double) (jmp / (cond * e * nx));
+    {
+        PathStat& s2 = pstat[std::string ("affine-jump2:") + (N == 3 ? "M33.inverse" : "M44.inverse") + " " + tyName<T> ()];
+        ++s2.n;
+        const bool inRange = cond * cond * e * 16 <= 1;        // as for accuracy2
+        if (inRange) ++s2.judged;
+        double r2 = inRange ? (double) (jmp / (cond * cond * e * nx)) : 0;
+        if (r2 > s2.worst) { s2.worst = r2; s2.worstCond = (double) cond; }
+        if (r2 > 2 * C2)
+        {
+            char b2[400];
+            snprintf (b2, 400, "%s |inverse(M)-inverse(M')|/(cond^2*eps*|X|)=%.4g bound=%g cond=%.3g class=%s in=", tyName<T> (), r2, 2 * C2, (double) cond, cls.c_str ());
+            failLine (s2, std::string ("residue:affine-jump2:") + (N == 3 ? "M33.inverse" : "M44.inverse"), b2 + showM<T, N> (m) + " perturbed=" + showM<T, N> (p) + " dec=" + showDec<T, N> (m));
+        }
+    }
     ++st.judged;
     if (ratio > st.worst) { st.worst = ratio; st.worstCond = (double) cond; }
     if (ratio > 2 * CBOUND)
@@ -899,14 +970,14 @@ static int residueMain (unsigned long seed, long n)
         printf ("RPATH %s n=%ld judged=%ld worst=%.4g worst_at_cond=%.3g fails=%ld nonfinite=%ld\n", kv.first.c_str (), kv.second.n, kv.second.judged, kv.second.worst, kv.second.worstCond, kv.second.fails,
                 kv.second.nonfinite);
     for (auto& kv : pstat)
-        if (kv.second.judged && kv.first.compare (0, 8, "lattice:") != 0 && kv.first.compare (0, 12, "affine-jump:") != 0)
+        if (kv.second.judged && kv.first.compare (0, 8, "lattice:") != 0 && kv.first.compare (0, 11, "affine-jump") != 0 && kv.first.compare (0, 8, "accuracy") != 0)
             printf ("RRESIDUAL %s worst=%.4g\n", kv.first.c_str (), kv.second.worstRes);
     for (auto& kv : gstat)
     {
         int bits = 0;
         for (int b = 0; b < 9; ++b) bits += (kv.second.posMask >> b) & 1;
-        printf ("RGUARD %s n=%ld must_divide=%ld must_identity=%ld band=%ld ties=%ld unique_fail_positions=%d/%d fails=%ld\n", kv.first.c_str (), kv.second.n, kv.second.mustDivide, kv.second.mustIdentity,
-                kv.second.band, kv.second.ties, bits, kv.second.K * kv.second.K, kv.second.fails);
+        printf ("RGUARD %s n=%ld must_divide=%ld must_identity=%ld band=%ld ties=%ld unique_fail_positions=%d/%d fails=%ld edge_cases=%ld edge_band=%ld\n", kv.first.c_str (), kv.second.n, kv.second.mustDivide,
+                kv.second.mustIdentity, kv.second.band, kv.second.ties, bits, kv.second.K * kv.second.K, kv.second.fails, kv.second.edgeN, kv.second.edgeBand);
     }
     for (auto& kv : jstat)
         printf ("RJUMP %s pairs=%ld one_side_identity=%ld arms_disagree_as_in_theorem=%ld perturbation_crossed_threshold=%ld band=%ld unexplained=%ld within_cond_1/eps=%ld\n", kv.first.c_str (), kv.second.pairs,
@@ -914,8 +985,8 @@ static int residueMain (unsigned long seed, long n)
     printf ("RCLASSES");
     for (auto& kv : classN) printf (" %s=%ld", kv.first.c_str (), kv.second);
     printf ("\n");
-    printf ("RESIDUE evals=%ld failures=%ld bound=%g det_ge1=%ld det_lt1=%ld guard_identity=%ld finite_checked=%ld lattice_checked=%ld dynamic_range_excluded_from_finiteness=%ld\n", rEvals, rFail, CBOUND, detGe1, detLt1, guardIdentity,
-            finiteChecked, latticeChecked, rangeExcluded);
+    printf ("RESIDUE evals=%ld failures=%ld bound=%g det_ge1=%ld det_lt1=%ld guard_identity=%ld finite_checked=%ld lattice_checked=%ld dynamic_range_excluded_from_finiteness=%ld outside_range_checked=%ld outside_range_nonfinite=%ld\n", rEvals, rFail, CBOUND, detGe1, detLt1, guardIdentity,
+            finiteChecked, latticeChecked, rangeExcluded, outsideRangeChecked, outsideRangeNonfinite);
     return rFail ? 1 : 0;
 }
 
